@@ -191,6 +191,7 @@ func checkC14(c *Ctx) Meta {
 	c.Rule("C14-SNAPSHOT", "what an operation reads under the lock is the state itself: the two branch counters read in one transaction are the external and the internal counter (shared polarity rule of C06/C01) — an export taken between issuance requests then matches a state the wallet was actually in, as the one-at-a-time order requires", 10)
 	if len(c.aliases) == 0 { // only as C14's own rule (the properties that alias C14's lock rules have the polarity rule themselves)
 		checkBranchPolarity(c, "C14-SNAPSHOT")
+		checkRemarkCleared(c, "C14-SNAPSHOT") // and what a remark change shows in memory is what it left in the store
 	} else {
 		delete(c.Rules, c.alias("C14-SNAPSHOT"))
 		delete(c.Floors, c.alias("C14-SNAPSHOT"))
